@@ -71,10 +71,10 @@ def minList : List Rat → Option Rat
   | [] => none
   | x :: xs => some (xs.foldl min x)
 
-/-- `_DOT_PRODUCT_PERPENDICULAR_TOLERANCE` -/
-def perpTol : Rat := 1 / 1000
-/-- `_DEFAULT_SPACING_RELATIVE_TOLERANCE` -/
-def defaultRtol : Rat := 1 / 100
+/-- `_DOT_PRODUCT_PERPENDICULAR_TOLERANCE` (translated constant) -/
+def perpTol : Rat := Gen.perpendicularTolerance
+/-- `_DEFAULT_SPACING_RELATIVE_TOLERANCE` (translated constant) -/
+def defaultRtol : Rat := Gen.spacingRelativeTolerance
 
 /-- `abs(dot − 1) < tol or abs(dot + 1) < tol` for `dot = n·span / ‖span‖`, in squared form -/
 def isPerpendicular (n span : V3) : Bool :=
